@@ -508,7 +508,6 @@ def ppo_to_ppi_gpu(s, c_locs, time, ppi_offset, ppo_offset, ppio_start):
     if y >= s.shape[1]: return
     if x >= s.shape[2]: return
 
-    if c_locs[ppi_offset + y] < 0: return
     if c_locs[ppo_offset + y] < 0: return
 
     s[0, y, x] = s[2, y, x]
